@@ -670,3 +670,53 @@ def curve_fromder(d):
     return (f"ok {c.name} {int(c.curve.p())} {_sint(c.curve.a())} {_sint(c.curve.b())} {int(g0.x())} {int(g0.y())} "
             f"{int(g0.order())} {'-' if cof is None else int(cof)}")
 
+
+
+# ---------------------------------------------------------------------------------- PEM armour (correspondence)
+
+def _hx0(b):
+    return hx(b) or "-"
+
+
+def _un0(t):
+    return b"" if t == "-" else unhx(t)
+
+
+def _b64err(f):
+    """binascii.Error is a subclass of ValueError; the model has the class ValueError for it"""
+    import binascii
+
+    def w(*a):
+        try:
+            return f(*a)
+        except binascii.Error:
+            return "err ValueError"
+        except Exception as e:
+            return err(e)
+    return w
+
+
+@op("pem.to")
+@_b64err
+def pem_to(name, d):
+    return "ok " + hx(der.topem(_un0(d), _un0(name).decode("utf-8")))
+
+
+@op("pem.un")
+@_b64err
+def pem_un(d):
+    return "ok " + _hx0(der.unpem(_un0(d)))
+
+
+@op("b64.enc")
+@_b64err
+def b64_enc(d):
+    import base64
+    return "ok " + _hx0(base64.b64encode(_un0(d)))
+
+
+@op("b64.dec")
+@_b64err
+def b64_dec(d):
+    import base64
+    return "ok " + _hx0(base64.b64decode(_un0(d)))
